@@ -1388,10 +1388,27 @@ func (s *BgpServer) processRTCMembership(peer *peer, path *table.Path) {
 	fs := peerNonRTCFamilies(peer)
 	s.rtcVPNCandidates(peer, path.IsWithdraw, rt, fs, func(paths []*table.Path, filtered []*table.Path) {
 		if path.IsWithdraw {
-			// Skips filtering: paths are already scoped to this RT and withdrawals
-			// do not need path attributes.
-			peer.updateRoutes(filtered...)
-			sendfsmOutgoingMsg(peer, filtered)
+			// Withdraw what the peer was told and is no longer interested in:
+			// a route may still match another of its memberships (another
+			// target of the route, or the default membership), and a route
+			// it was never told needs no withdrawal.
+			withdrawals := make([]*table.Path, 0, len(filtered))
+			for _, p := range filtered {
+				if p == nil || p.IsEOR() {
+					continue
+				}
+				if peer.interestedIn(p) || !peer.hasPathAlreadyBeenSent(p) {
+					continue
+				}
+				if !p.IsWithdraw {
+					p = p.Clone(true)
+				}
+				withdrawals = append(withdrawals, p)
+			}
+			if len(withdrawals) > 0 {
+				peer.updateRoutes(withdrawals...)
+				sendfsmOutgoingMsg(peer, withdrawals)
+			}
 			return
 		}
 		if peer.getRtcEORWait() {
